@@ -549,3 +549,22 @@ def run(ctx):
 def Emit_tokens(body):
     e = Emit(); e.root(body)
     return e.roots[0][1]
+
+
+REQUIRED += ['Librfn.C08.' + t for t in (
+    'resume_is_residual', 'invocations_concat', 'return_codes', 'spawn_restarts_child', 'spawn_resumes_child', 'spawn_relays',
+    'spawn_continues', 'child_ok_reflects', 'spawn_and_check_reflects', 'call_runs_to_completion', 'invoke_good',
+    'pt_always_label_or_zero')]
+META['level_text'] = (
+    'Lean 4 theorems (kernel-only, no bv_decide) over a deep embedding of protothread bodies (effects, seq, if, while, PT_YIELD, PT_WAIT, PT_WAIT_UNTIL, PT_EXIT(_ON), '
+    'PT_FAIL(_ON), PT_SPAWN, PT_SPAWN_AND_CHECK, PT_CALL, PT_CHILD_OK; side-effecting conditions; children to any depth) for ALL bodies with one macro per line '
+    '(unique non-zero labels: WF; relabel proves every body shape has such a labelling), all stores and all fuel: resume_is_residual (entering at case l = running the text after l: '
+    'yield/wait block once, wait-until re-evaluates, spawn re-calls the child without init), invocations_concat (whenever the body run as ONE sequential program through n blocking points '
+    'terminates with events evs, n+1 real invocations through switch(*pt) log exactly evs), return_codes, spawn_restarts_child/relays/continues, child_ok_reflects, '
+    'spawn_and_check_reflects, call_runs_to_completion, pt_always_label_or_zero (assert(0) unreachable). The model is tied to the real macros on every run by compiling random and '
+    'corpus bodies with gcc and diffing per-invocation logs (incl. *pt after each invocation); that tie is sampling, not proof.')
+META['level_note'] = (
+    'Trusted: Lean kernel (propext, Classical.choice, Quot.sound); the hand model of protothreads.h (lean/Librfn/Model/PT.lean), validated each run against gcc-compiled bodies using the '
+    'real macros (sampling); gcc\'s switch/case semantics; invocations_concat is stated for sequential runs that finish within the fuel (a diverging body has no trace); the sequential '
+    'program is the same evaluator run from the start with a budget of blocking points to pass (it never jumps to a case label in that mode); each PT_SPAWN/PT_CALL site has its own '
+    'child pt_t in the generated bodies (sharing one pt_t between sites, as tests/protothreadstest.c does, is not generated); pt_t is uint16_t so generated files stay below 65536 lines.')
